@@ -30,7 +30,7 @@ ASSUMPTIONS = [
 ]
 REQUIRED_COUNTERS = ["mean_comparisons", "diffusion_comparisons", "variance_bound_checks", "representations_set",
                      "nd_margin_mean_comparisons", "nd_diffusion_comparisons", "nd_central_cell_second_moments",
-                     "nd_central_cell_second_moments_decisive", "nd_central_cell_cross_moments"]
+                     "nd_central_cell_second_moments_decisive", "nd_central_cell_cross_moments", "pure_jump_models_with_added_brownian_component"]
 MIN_NONTRIVIAL = {"quick": 60, "thorough": 400}
 SHARD_TIMEOUT = {"quick": 900, "thorough": 7200}
 REPS = ["native", "ZERO", "CENTER", "ONEONE", "TILDE"]
@@ -53,6 +53,8 @@ def gen_cases(tier, seed):
                 lev = min(lev, 1)
             meth = C.METHODS_1D[i % 6]
             cases.append({"model": m, "rep": rep, "grid": G.gen_grid_spec(rng, ctor, 1), "level": lev, "method": meth})
+            if m["family"] in ("CGMY", "VG") and not m.get("exp") and i % 2:
+                cases[-1]["extra_sigma"] = W.r6(rng.uniform(0.05, 0.4))
     for j in range(8 if not thorough else 60):
         dim = 2 if j % 3 else 3
         cm = W.gen_copula_model_spec(rng, dim=dim, kind=["clayton", "independent", "clayton", "dependent"][j % 4], exp=bool(j % 2))
@@ -158,6 +160,10 @@ def _run_1d(case, R):
     mspec, rep_req, lev, method = case["model"], case["rep"], case["level"], case["method"]
     label = W.model_label(mspec)
     model = W.build_model(mspec)
+    if case.get("extra_sigma"):
+        # a pure-jump model given a Brownian component through its public triplet (jumps of infinite variation AND sigma > 0)
+        model.levy_triplet.sigma = float(case["extra_sigma"])
+        R.hit("pure_jump_models_with_added_brownian_component")
     fv = bool(model.jump_of_finite_variation())
     if rep_req == "ZERO" and not fv:
         rep_req = "ONEONE"      # the ZERO representation does not exist for infinite variation
